@@ -1041,7 +1041,12 @@ class TeX(object):
         self.cast()
 
         """
-        return type(self.normalize(tokens))
+        tokens = self.normalize(tokens)
+        # Tokens that could not be joined (e.g. a nested group) come back
+        # as a fragment; its string value is its text
+        if getattr(tokens, 'nodeType', None) == Macro.DOCUMENT_FRAGMENT_NODE:
+            tokens = tokens.textContent
+        return type(tokens)
 
     def castLabel(self, tokens, **kwargs):
         """
